@@ -3,6 +3,7 @@ import io
 import itertools
 import os
 import struct
+import sys
 
 from vlib import env
 from vlib.runner import Failure, ShardResult, hypothesis_search
@@ -69,6 +70,8 @@ FOREIGN_LEAVES = (
     ("datetime", "date", None), ("colorsys", "rgb_to_hsv", None), ("decimal", "Decimal", None),
     # Python-2 spellings whose Python-3 counterpart is allow-listed: from protocol 3 on nothing is
     # renamed, so these are what they look like - modules outside the allowlist
+    # importable but not yet imported (a dotted one needs its parent package imported to be located)
+    ("verif_canary", "fire", None), ("verif_canary_pkg.sub", "thing", None),
     ("UserDict", "OrderedDict", "py2"), ("copy_reg", "_reconstructor", "py2"), ("cPickle", "loads", "py2"),
     ("__builtin__", "set", "py2"),
     # protocol-4 qualified names: only the exact dotted name may be looked up in the allowlist
@@ -211,6 +214,14 @@ def base_allowlist():
 # fickling's other guard layered on top of the environment ("context_left": a with-block entered and
 # left again before the load; the environment is still the active one); "+inst": the leaf resolves
 # its globals with INST instead of GLOBAL
+CANARY_ROOTS = ("verif_canary", "verif_canary_pkg")
+
+
+def _forget_canaries():
+    for m in [m for m in sys.modules if m.split(".")[0] in CANARY_ROOTS]:
+        del sys.modules[m]
+
+
 LAYERS = ("none", "arm", "context", "context_left", "none+inst", "context_left+inst")
 STREAMS = ("bytesio", "named_file", "fd_file")  # what the file entry points are handed
 
@@ -296,6 +307,10 @@ def check(leaf_globs, loaders, entry, additions, layer="none", stream="bytesio")
                                                                    "collections.Counter"]).load()  # fmt: skip
             except Exception:  # noqa: BLE001
                 pass
+    if len(data) % 3 == 0:
+        # an earlier activation (other additions) that was superseded, never removed
+        hook.activate_safe_ml_environment(also_allow=["os.getpid", "verif_sink.sink", "collections.Counter",
+                                                       "builtins.eval", "verif_canary.fire"])  # fmt: skip
     hook.activate_safe_ml_environment(also_allow=list(additions) or None)
     ctx = None
     try:
@@ -309,9 +324,13 @@ def check(leaf_globs, loaders, entry, additions, layer="none", stream="bytesio")
         elif layer == "context_left":
             with fickling.check_safety():
                 pass
+        _forget_canaries()
         with mon.watch() as events:
             got, log = outcome_of(entry, data, stream)
         resolved = [(e[1], e[2]) for e in events if e[0] == "pickle.find_class"]
+        imported = sorted({e[1] for e in events if e[0] == "import" and e[1].split(".")[0] in CANARY_ROOTS}
+                          | {m for m in sys.modules if m.split(".")[0] in CANARY_ROOTS})
+        _forget_canaries()
     finally:
         if ctx is not None:
             ctx.__exit__(None, None, None)
@@ -326,6 +345,8 @@ def check(leaf_globs, loaders, entry, additions, layer="none", stream="bytesio")
     bad = [r for r in resolved if r not in allowed]
     if bad:
         return fail(f"resolved {bad} which are neither built-in allow-listed nor explicitly added")
+    if foreign and imported and not any((m, n) in allowed for m, n in names if m.split(".")[0] in CANARY_ROOTS):
+        return fail(f"a module outside the allowed set was imported ({imported}) although its global is refused")
     if foreign:
         if got != ("raised", "UnsafeFileError"):
             return fail(f"payload names {foreign} outside the allowed set but the load gave {got}")
